@@ -92,6 +92,18 @@ static void inspect(const Elem &e, const char *buf, size_t len, int depth)
     }
     size_t n = rtosc_bundle_elements(buf, len);
     if(n != e.kids.size()) { fail("bundle_elements", {}, g_desc, std::to_string(n), std::to_string(e.kids.size())); return; }
+    // generous bounds ("somewhere in a big buffer", the library's own (size_t)-1): the zero size word ends the walk
+    if(depth == 0) {
+        Heap hz(len, 8);
+        memcpy(hz.p, buf, len);
+        static const size_t B[] = {(size_t)-1, ((size_t)-1) / 2, (size_t)2147483647 + 17, ((size_t)1 << 32) + 16, ((size_t)1 << 31), 65536};
+        for(size_t b : B) {
+            if(b < len) continue;
+            size_t nb = rtosc_bundle_elements(hz.p, b);
+            count("inspect.elements_generous_bound");
+            if(nb != e.kids.size()) { fail("bundle_elements", {"generous_bound"}, g_desc + fmt(" [bound %zu]", b), std::to_string(nb), std::to_string(e.kids.size())); break; }
+        }
+    }
     size_t off = 16;
     for(size_t i = 0; i < e.kids.size(); ++i) {
         ref::bytes kb = e.kids[i].encode();
